@@ -30,6 +30,22 @@ pub fn call(fnname: &str, args: &[&str], touched: &mut Vec<String>) -> Option<St
         ("name", 1) => { let a = s(0)?; guarded(|| show_res(sys::name(&a), |x| show_str(x))) },
         ("ext", 1) => { let a = s(0)?; guarded(|| show_res(sys::ext(&a), |x| show_str(x))) },
         ("dir", 1) => { let a = s(0)?; guarded(|| show_res(sys::dir(&a), |x| show_path(x))) },
+        ("law_trim_ext", 1) => {
+            let a = s(0)?;
+            guarded(|| match sys::ext(&a) {
+                Ok(e) => match sys::trim_ext(&a) {
+                    Ok(t) => {
+                        let joined = format!("{}.{}", t.to_string_lossy(), e);
+                        format!("ok {}", show_bool(Path::new(&joined) == Path::new(&a)))
+                    },
+                    Err(_) => format!("ok {}", show_bool(false)),
+                },
+                Err(_) => format!("ok {}", show_bool(true)),
+            })
+        },
+        ("dir_c", 1) => { let a = s(0)?; guarded(|| show_res(sys::dir(&a), |x| show_comps(x))) },
+        ("trim_first_c", 1) => { let a = s(0)?; guarded(|| format!("ok {}", show_comps(&sys::trim_first(&a)))) },
+        ("trim_last_c", 1) => { let a = s(0)?; guarded(|| format!("ok {}", show_comps(&sys::trim_last(&a)))) },
         ("trim_ext", 1) => { let a = s(0)?; guarded(|| show_res(sys::trim_ext(&a), |x| show_path(x))) },
         ("trim_first", 1) => { let a = s(0)?; guarded(|| format!("ok {}", show_path(&sys::trim_first(&a)))) },
         ("trim_last", 1) => { let a = s(0)?; guarded(|| format!("ok {}", show_path(&sys::trim_last(&a)))) },
